@@ -8,6 +8,9 @@ import vlib, design
 def walkfam(profile, disc="wake", q=240, t=4000, extra=()):
     return dict(name="%s-%s" % (profile, disc), kind="walk", profile=profile, disc=disc, q=q, t=t, extra=list(extra))
 
+def tlcfam(cfg, q=300, t=6000, depth=70):
+    return dict(name="tlc-" + cfg, kind="tlc", cfg=cfg, q=q, t=t, depth=depth)
+
 def genfam(name, gen, q, t, extra=()):
     return dict(name=name, kind="gen", gen=gen, q=q, t=t, extra=list(extra))
 
@@ -15,19 +18,19 @@ PROPS = {
     "C03": dict(fams=[genfam("chunk-exh", "chunk", 1, 1, ["--mode", "exh"]), genfam("chunk-long", "chunk", 1, 1, ["--mode", "long"])],
                 modes=("dev", "release"), design=["MC_Framing"]),
     "C04": dict(fams=[genfam("fuzz", "fuzz", 1, 1)], modes=("dev", "release"), design=["MC_Phases"]),
-    "C05": dict(fams=[walkfam("ops"), walkfam("mixed", "wake", 160, 3000), walkfam("ops", "sweep", 80, 1000)], design=["MC_Ops"]),
-    "C06": dict(fams=[walkfam("ops"), walkfam("quota", "wake", 160, 3000)], design=["MC_Ops"]),
-    "C07": dict(fams=[walkfam("inbound"), walkfam("mixed", "wake", 160, 3000)], design=["MC_Inbound"]),
-    "C08": dict(fams=[walkfam("inbound"), walkfam("mixed", "wake", 160, 3000)], design=["MC_Inbound"]),
-    "C09": dict(fams=[walkfam("inbound", "wake", 320, 5000), genfam("q2seq", "q2seq", 1, 1)], design=["MC_Inbound"]),
-    "C10": dict(fams=[walkfam("quota", "wake", 320, 5000), walkfam("ops", "wake", 160, 2000), genfam("quota-fill", "quotafill", 1, 1)], design=["MC_Ops"]),
-    "C11": dict(fams=[genfam("wrap", "wrap", 1, 1), walkfam("ops", "wake", 80, 1000)], design=["MC_Ops"]),
-    "C12": dict(fams=[genfam("size", "size", 1, 1)], design=["MC_Ops"]),
-    "C13": dict(fams=[walkfam("life", "wake", 400, 6000), genfam("first", "first", 1, 1)], design=["MC_Life"]),
-    "C14": dict(fams=[walkfam("life", "wake", 400, 6000), walkfam("mixed", "wake", 160, 3000)], design=["MC_Life"]),
-    "C15": dict(fams=[walkfam("cancel", "wake", 400, 6000), walkfam("mixed", "wake", 160, 3000)], design=["MC_Life"]),
+    "C05": dict(fams=[walkfam("ops"), walkfam("mixed", "wake", 160, 3000), walkfam("ops", "sweep", 80, 1000), tlcfam("MC_Ops")], design=["MC_Ops"]),
+    "C06": dict(fams=[walkfam("ops"), walkfam("quota", "wake", 160, 3000), tlcfam("MC_Ops")], design=["MC_Ops"]),
+    "C07": dict(fams=[walkfam("inbound"), walkfam("mixed", "wake", 160, 3000), tlcfam("MC_Inbound")], design=["MC_Inbound"]),
+    "C08": dict(fams=[walkfam("inbound"), walkfam("mixed", "wake", 160, 3000), tlcfam("MC_Inbound")], design=["MC_Inbound"]),
+    "C09": dict(fams=[walkfam("inbound", "wake", 320, 5000), genfam("q2seq", "q2seq", 1, 1), tlcfam("MC_Inbound")], design=["MC_Inbound"]),
+    "C10": dict(fams=[walkfam("quota", "wake", 320, 5000), walkfam("ops", "wake", 160, 2000), genfam("quota-fill", "quotafill", 1, 1), tlcfam("MC_Ops")], design=["MC_Ops"]),
+    "C11": dict(fams=[genfam("wrap", "wrap", 1, 1), walkfam("ops", "wake", 80, 1000), tlcfam("MC_Ids")], design=["MC_Ids"]),
+    "C12": dict(fams=[genfam("size", "size", 1, 1), tlcfam("MC_Ops")], design=["MC_Ops"]),
+    "C13": dict(fams=[walkfam("life", "wake", 400, 6000), genfam("first", "first", 1, 1), tlcfam("MC_Life")], design=["MC_Life"]),
+    "C14": dict(fams=[walkfam("life", "wake", 400, 6000), walkfam("mixed", "wake", 160, 3000), tlcfam("MC_Life")], design=["MC_Life"]),
+    "C15": dict(fams=[walkfam("cancel", "wake", 400, 6000), walkfam("mixed", "wake", 160, 3000), tlcfam("MC_Life"), tlcfam("MC_Ops")], design=["MC_Life"]),
     "C16": dict(fams=[walkfam("wake", "wake", 160, 2000), walkfam("wake", "sweep", 160, 2000), walkfam("wake", "spur", 160, 2000),
-                      genfam("disc-compare", "disccmp", 1, 1)], design=["MC_Wake"]),
+                      genfam("disc-compare", "disccmp", 1, 1), tlcfam("MC_Wake")], design=["MC_Wake"]),
     "C17": dict(fams=[genfam("resume", "resume", 1, 1)], design=["MC_Resume"]),
 }
 
@@ -160,6 +163,14 @@ def gen_family(bins, fam, tier, d, mode="dev"):
     n = fam["q"] if tier == "quick" else fam["t"]
     files = []
     seed = vlib.seed()
+    if fam["kind"] == "tlc":
+        # spec -> code: behaviours of the design model, replayed into the real client
+        cfgname = fam["cfg"] + ("_quick" if os.path.exists(os.path.join(vlib.SPEC, fam["cfg"] + "_quick.cfg")) else "")
+        sp = os.path.join(d, "%s.scripts" % fam["name"])
+        design.export_scripts(cfgname, n, fam["depth"], seed, sp, fam["name"])
+        t = os.path.join(d, "%s-%s.ndjson" % (fam["name"], mode))
+        vlib.pvh(bins[mode], ["script", "--in", sp, "--out", t])
+        return [(t, sp)]
     if fam["kind"] == "walk":
         shards = 8 if n >= 64 else 1
         per = max(1, n // shards)
@@ -234,7 +245,9 @@ def run(prop, tier):
         print("TOOL-ERROR: trace line without a specification action:", tool[0])
         return 2
     if dres and dres.get("violation"):
-        viol.insert(0, (("design", 0, dres["cfg"]), [prop, "design-invariant", 0, dres["violation"]]))
+        # the design model does not depend on /repo: a violation there is an inconsistency of the specification itself
+        print("TOOL-ERROR: design configuration %s violates %s (see %s)" % (dres["cfg"], dres["violation"], dres.get("replay")))
+        return 2
     evaluated = [k for k in verdicts]
     clean_or_own = [k for k, v in verdicts.items() if v is None or v[0] == prop]
     sigs = set()
